@@ -137,6 +137,13 @@ def gen_plan(rng, tier, index, config=None):
         elif op == "send_filtered":
             steps.append({"op": "send_proof", "block": "b%d" % r.below(nblocks), "match_mode": "filter", "match_seed": 0,
                           "corrupt": None, "pos": 0, "bit": 0})
+    if have_filter and r.chance(0.25):
+        # the wallet builds its filter again (after a reconnect, say): same parameters, same items, same order
+        fsteps = [x for x in steps if x["op"] in ("filter_new", "watch")]
+        last_new = max(i for i, x in enumerate(fsteps) if x["op"] == "filter_new")
+        steps.extend(dict(x) for x in fsteps[last_new:])
+        if r.chance(0.5):
+            steps.append({"op": "filterload", "flags": r.pick([0, 1])})
     return {"world": NAME, "config": {"name": net, "network": net}, "steps": steps}
 
 
